@@ -282,6 +282,7 @@ def verify_function(eng, key, c, fdef=None, module=None):
             body = c.body
         else:
             modname, qualname = key.split(':')
+            qualname = qualname.split('@')[0]        # (penman.mod:func@view is another contract of func)
             mod = eng.repo.module(modname)
             fdef = mod.func(qualname)
             res.source_hash = mod.source_hash(qualname)
